@@ -480,3 +480,165 @@ func genGC(cfg simkit.RunConfig, backend string) *Scenario {
 	}
 	return sc
 }
+
+// genStaleLock: mode "stalelock" (C02). A shape family aimed at transactions that leave a lock behind which
+// names a key that is no longer their primary: a pessimistic transaction whose first lock statement fails on
+// a blocked key, whose clean-up messages for the keys it had already locked are lost, which goes on with a new
+// primary and commits; the committing client is crashed at every RPC position of Commit (both variants). One
+// surviving client first writes to the stale keys (it has to resolve the stale locks, learning a verdict about
+// the transaction from the OLD primary) and later reads the keys of the commit (it meets the locks of the
+// crashed Commit with that verdict in its cache). The order "stale lock first, real lock second" inside ONE
+// resolver is what the randomly generated companions of mode crashfaults reach only rarely.
+func genStaleLock(cfg simkit.RunConfig, backend string) *Scenario {
+	per := maxCrashPos*2 + 1
+	shape, pos := cfg.Index/per, cfg.Index%per
+	r := simkit.Rand(cfg.BaseSeed, fmt.Sprintf("shape-stalelock-%d", shape))
+	sc := &Scenario{Backend: backend, Clients: 3, Victim: 0}
+	sc.Stores = 1 + r.Intn(3)
+	sc.Splits = subset(r, []string{"b", "c", "d", "e", "f"}, 2, 5)
+	sc.Net.Plan = map[string]simkit.Fate{}
+	sc.Net.Persist = map[string]simkit.Fate{}
+	keys := keyPool
+	// the blocked key is never the first key of the statement: the first key becomes the (old) primary and is locked
+	xi := 1 + r.Intn(len(keys)-1)
+	x := keys[xi]
+	var rest []string
+	for i, k := range keys {
+		if i != xi {
+			rest = append(rest, k)
+		}
+	}
+	stale := subset(r, rest, 1, 3)
+	if r.Intn(3) == 0 {
+		r.Shuffle(len(stale), func(i, j int) { stale[i], stale[j] = stale[j], stale[i] })
+	}
+	v := TxnProg{ID: 0, Client: 0, DelayMs: 5 + r.Intn(10), Pessimistic: true, End: "commit"}
+	if backend == "R" {
+		switch r.Intn(3) {
+		case 1:
+			v.Async = true
+		case 2:
+			v.OnePC = true
+		}
+	}
+	first := Op{Kind: "lock", Keys: append(append([]string(nil), stale...), x)}
+	if r.Intn(2) == 0 {
+		first.NoWait = true
+	} else {
+		first.WaitMs = 10 + r.Intn(60)
+	}
+	v.Ops = append(v.Ops, first)
+	// the statements after the failed one: new keys (one of them becomes the new primary), sometimes stale keys again
+	var pool []string
+	for _, k := range rest {
+		isStale := false
+		for _, s := range stale {
+			isStale = isStale || s == k
+		}
+		if !isStale || r.Intn(4) == 0 {
+			pool = append(pool, k)
+		}
+	}
+	if len(pool) == 0 {
+		pool = append(pool, rest[len(rest)-1])
+	}
+	wkeys := subset(r, pool, 1, 3)
+	if r.Intn(2) == 0 {
+		r.Shuffle(len(wkeys), func(i, j int) { wkeys[i], wkeys[j] = wkeys[j], wkeys[i] })
+	}
+	for i, k := range wkeys {
+		if r.Intn(5) != 0 {
+			v.Ops = append(v.Ops, Op{Kind: "lock", Keys: []string{k}, WaitMs: 50 + r.Intn(200), RetVals: r.Intn(2) == 0})
+		}
+		kind := pick(r, []string{"set", "set", "set", "delete"})
+		op := Op{Kind: kind, Keys: []string{k}}
+		if kind == "set" {
+			op.Val = fmt.Sprintf("v0.%d", i)
+		}
+		v.Ops = append(v.Ops, op)
+	}
+	ttlMs := 20000
+	if r.Intn(4) != 0 {
+		sc.Knobs.ManagedTTLMs = 300 + r.Intn(3000)
+		ttlMs = sc.Knobs.ManagedTTLMs
+	}
+	lateCommit := r.Intn(3) == 0
+	if lateCommit {
+		// the transaction stays open (heart-beats keep the NEW primary alive) while the stale locks expire
+		v.Ops = append(v.Ops, Op{Kind: "sleep", SleepMs: ttlMs + 500 + r.Intn(3000)})
+	}
+	sc.Txns = append(sc.Txns, v)
+	// the blocker holds x while the victim's first statement runs
+	b := TxnProg{ID: 1, Client: 2, DelayMs: 0, Pessimistic: true, End: pick(r, []string{"rollback", "commit"})}
+	b.Ops = append(b.Ops, Op{Kind: "lock", Keys: []string{x}, WaitMs: 100}, Op{Kind: "sleep", SleepMs: 80 + r.Intn(200)})
+	if b.End == "commit" {
+		b.Ops = append(b.Ops, Op{Kind: "set", Keys: []string{x}, Val: "b1"})
+	}
+	sc.Txns = append(sc.Txns, b)
+	// pre-existing data under some keys
+	id := 2
+	// the surviving resolver (client 1): writer(s) on the stale keys after their locks expired, then readers of everything
+	at := ttlMs + 200 + r.Intn(1500)
+	nw := 1 + r.Intn(2)
+	for i := 0; i < nw; i++ {
+		w := TxnProg{ID: id, Client: 1, DelayMs: at, Pessimistic: r.Intn(2) == 0, End: "commit"}
+		for _, k := range subset(r, stale, 1, len(stale)) {
+			if w.Pessimistic {
+				w.Ops = append(w.Ops, Op{Kind: "lock", Keys: []string{k}, WaitMs: 500 + r.Intn(3000)})
+			}
+			w.Ops = append(w.Ops, Op{Kind: "set", Keys: []string{k}, Val: fmt.Sprintf("w%d.%s", id, k)})
+		}
+		sc.Txns = append(sc.Txns, w)
+		id++
+		at += 300 + r.Intn(1500)
+	}
+	// readers after the victim's Commit (and crash) and after the expiry of its commit-time locks
+	if lateCommit {
+		at += ttlMs + 3000
+	} else if at < ttlMs+1000 {
+		at = ttlMs + 1000
+	}
+	nr := 1 + r.Intn(2)
+	for i := 0; i < nr; i++ {
+		p := TxnProg{ID: id, Client: 1, DelayMs: at + r.Intn(2000), End: "commit"}
+		p.Ops = append(p.Ops, Op{Kind: "bget", Keys: append([]string(nil), keys...)})
+		if r.Intn(2) == 0 {
+			p.Ops = append(p.Ops, Op{Kind: "iter"})
+		}
+		if r.Intn(2) == 0 {
+			p.Ops = append(p.Ops, Op{Kind: "sleep", SleepMs: 1000 + r.Intn(20000)}, Op{Kind: "bget", Keys: append([]string(nil), keys...)})
+		}
+		sc.Txns = append(sc.Txns, p)
+		id++
+	}
+	// a second surviving client that reads without ever having met the stale locks (control, and a second cache)
+	if r.Intn(2) == 0 {
+		p := TxnProg{ID: id, Client: 2, DelayMs: at + r.Intn(3000), End: "commit"}
+		p.Ops = append(p.Ops, Op{Kind: "bget", Keys: append([]string(nil), keys...)}, Op{Kind: "iter"})
+		sc.Txns = append(sc.Txns, p)
+		id++
+	}
+	// the clean-up messages of the failed statement are lost (all of them, or only the first ones)
+	switch r.Intn(4) {
+	case 0:
+		sc.Net.Plan["cmd:0:PessimisticRollback+0"] = simkit.DropReq
+	case 1:
+		sc.Net.Plan["cmd:0:PessimisticRollback+0"] = simkit.DropReqSlow
+		sc.Net.Plan["cmd:0:PessimisticRollback+1"] = simkit.DropReq
+	default:
+		sc.Net.Persist["cmd:0:PessimisticRollback"] = simkit.DropReq
+	}
+	sc.Net.JitterUs = []int{0, 500, 3000}[r.Intn(3)]
+	if r.Intn(3) == 0 {
+		sc.Knobs.CommitBatchSize = 1
+	}
+	mark := "end0"
+	switch {
+	case pos < maxCrashPos:
+		sc.Net.Plan[fmt.Sprintf("ord:0:%s+%d", mark, pos)] = simkit.CrashBefore
+	case pos < 2*maxCrashPos:
+		sc.Net.Plan[fmt.Sprintf("ord:0:%s+%d", mark, pos-maxCrashPos)] = simkit.CrashAfter
+	default: // no crash: the committer finishes by itself, the stale locks stay
+	}
+	return sc
+}
